@@ -1,5 +1,6 @@
 import RactorModel.Extracted
 import RactorModel.Lemmas.LifeC01
+import RactorModel.Lemmas.LifeC01Spec
 import RactorModel.Lemmas.LifeWorld
 
 /-!
@@ -65,6 +66,132 @@ theorem no_overlap (s : Life.C01.St) (cb1 cb2 : Cb) (a1 a2 : Arg) (rest : List E
     rw [accepts_cons, Life.C01.next_enter_of_isOpen s1 cb2 a2 (Life.C01.next_enter_isOpen h1)]
     rfl
 
+/-! ### What acceptance means, in the vocabulary of the trace alone (spec validation, round 4)
+
+`Life.C01.openAfter p` is the callback whose future exists after the trace `p`, computed by scanning
+`p` (an `enter` opens, `exit`/`cancelled` close, the end of the task closes); `isFatal` are the events
+after which `post_stop` must never run; `entered cb tr` counts the `enter cb` events. None of them
+mentions the automaton. -/
+
+/-- Non-overlap, general form: in an accepted trace every `enter` happens while no callback is open —
+between two `enter`s there is an `exit` or `cancelled` (or the end of the task). -/
+theorem enter_only_when_closed (tr p r : List Ev) (cb : Cb) (a : Arg) (h : Life.C01.ok tr = true)
+    (e : tr = p ++ .enter cb a :: r) : Life.C01.openAfter p = none := by
+  obtain ⟨s, hs⟩ := Life.C01.ok_iff.mp h
+  subst e
+  obtain ⟨s1, h1, h2⟩ := Life.C01.accepts_append_inv _ p _ hs
+  rw [accepts_cons] at h2
+  cases hn : Life.C01.next s1 (.enter cb a) with
+  | error c => simp [hn] at h2
+  | ok s2 =>
+    have hopen := Life.C01.accepts_open (o := none) h1 rfl
+    cases ho : s1.stage.isOpen with
+    | true => rw [Life.C01.next_enter_of_isOpen s1 cb a ho] at hn; cases hn
+    | false =>
+      rw [ho] at hopen
+      unfold Life.C01.openAfter
+      cases hx : Life.C01.openFrom none p with
+      | none => rfl
+      | some c => rw [hx] at hopen; cases hopen
+
+/-- `post_stop` only on a graceful exit: before an accepted `enter post_stop` no callback returned
+`Err` or panicked, none was cancelled, no kill (API, self or tree) was accepted, the task did not
+end — and a stop was accepted or a drain marker enqueued. -/
+theorem post_stop_only_graceful (tr p r : List Ev) (a : Arg) (h : Life.C01.ok tr = true)
+    (e : tr = p ++ .enter .postStop a :: r) :
+    (∀ x ∈ p, Life.C01.isFatal x = false) ∧ (∃ x ∈ p, Life.C01.isStopReq x = true) := by
+  obtain ⟨s, hs⟩ := Life.C01.ok_iff.mp h
+  subst e
+  obtain ⟨s1, h1, h2⟩ := Life.C01.accepts_append_inv _ p _ hs
+  rw [accepts_cons] at h2
+  cases hn : Life.C01.next s1 (.enter .postStop a) with
+  | error c => simp [hn] at h2
+  | ok s2 =>
+    obtain ⟨hnd, hreq⟩ := Life.C01.next_enter_postStop hn
+    constructor
+    · intro x hx
+      cases hf : Life.C01.isFatal x with
+      | false => rfl
+      | true => exact absurd (Life.C01.accepts_doomed h1 (Or.inr ⟨x, hx, hf⟩)) hnd
+    · rcases Life.C01.accepts_stopReq h1 hreq with h0 | h0
+      · cases h0
+      · exact h0
+
+/-- Exactly once, positive form: in an accepted trace `pre_start` is entered at most once and
+`post_start` at most as often as `pre_start`; and whenever a message handler, a supervision handler
+or `post_stop` is entered, **exactly one** `pre_start` and **exactly one** `post_start` were entered
+before it. -/
+theorem start_callbacks_exactly_once (tr : List Ev) (h : Life.C01.ok tr = true) :
+    Life.C01.entered .preStart tr ≤ 1 ∧ Life.C01.entered .postStart tr ≤ Life.C01.entered .preStart tr ∧
+    ∀ p r cb a, tr = p ++ .enter cb a :: r → (cb = .handle ∨ cb = .sup ∨ cb = .postStop) →
+      Life.C01.entered .preStart p = 1 ∧ Life.C01.entered .postStart p = 1 := by
+  obtain ⟨s, hs⟩ := Life.C01.ok_iff.mp h
+  have hall := Life.C01.accepts_cnt (n1 := 0) (n2 := 0) hs (by simp [Life.C01.cntOk])
+  simp only [Nat.zero_add] at hall
+  refine ⟨?_, ?_, ?_⟩
+  · cases hst : s.stage <;> simp_all [Life.C01.cntOk]
+  · cases hst : s.stage <;> simp_all [Life.C01.cntOk]
+  · intro p r cb a e hcb
+    subst e
+    obtain ⟨s1, h1, h2⟩ := Life.C01.accepts_append_inv _ p _ hs
+    rw [accepts_cons] at h2
+    cases hn : Life.C01.next s1 (.enter cb a) with
+    | error c => simp [hn] at h2
+    | ok s2 =>
+      have hrun := Life.C01.next_enter_late hn hcb
+      have hp := Life.C01.accepts_cnt (n1 := 0) (n2 := 0) h1 (by simp [Life.C01.cntOk])
+      simp only [Nat.zero_add, hrun, Life.C01.cntOk] at hp
+      exact hp
+
+/-- No callback after the task ended: nothing is entered after a `join` (the loop task is over,
+normally or aborted) in an accepted trace. -/
+theorem nothing_after_task_end (tr p r : List Ev) (j : JoinRes) (h : Life.C01.ok tr = true)
+    (e : tr = p ++ .join j :: r) : ∀ cb a, Ev.enter cb a ∉ r := by
+  obtain ⟨s, hs⟩ := Life.C01.ok_iff.mp h
+  subst e
+  obtain ⟨s1, _, h2⟩ := Life.C01.accepts_append_inv _ p _ hs
+  rw [accepts_cons] at h2
+  exact Life.C01.accepts_dead (s := { s1 with stage := .dead }) h2 rfl
+
+/-- Liveness at a step ("exactly once" needs the callback to be entered at all): a `spawn` on a free
+slot whose name is free (and, for a thread-local actor, whose supervisor accepts the link) enters
+`pre_start` in that very step. -/
+theorem spawn_enters_pre_start (a : Actor) (sup : Option Nat) (name : Option String) (nameFree isLocal supOk : Bool)
+    (hph : a.phase = .fresh) (hn : (name.isSome && !nameFree) = false)
+    (hl : isLocal = true → sup.isSome = true → supOk = true) :
+    Ev.enter .preStart .none ∈ evs (opSpawn a sup name nameFree isLocal supOk).2 ∧
+    (opSpawn a sup name nameFree isLocal supOk).1.phase = .pre := by
+  unfold opSpawn
+  simp only [hph, hn]
+  cases isLocal with
+  | false => simp
+  | true =>
+    cases sup with
+    | none => simp
+    | some p => simp [hl rfl rfl]
+
+/-- The first poll of the loop task enters `post_start` (unless a kill is pending), and an instant
+start task's first poll enters `pre_start` (unless a kill is pending or the link is refused). -/
+theorem ready_poll_enters_post_start (a : Actor) (hph : a.phase = .ready) (hs : a.sigVal = false) :
+    evs (opPoll a).2 = [.enter .postStart .none] ∧ (opPoll a).1.phase = .postStart := by
+  unfold opPoll
+  simp [hph, hs]
+
+theorem instant_first_poll_enters_pre_start (a : Actor) (supOk : Bool) (hph : a.phase = .cell)
+    (hst : a.status = .unstarted)
+    (hs : a.sigVal = false) (hl : a.isLocal = true → a.wantSup.isSome = true → supOk = true) :
+    Ev.enter .preStart .none ∈ evs (opPollSpawn a supOk).2 ∧ (opPollSpawn a supOk).1.phase = .pre := by
+  unfold opPollSpawn startInstant
+  simp only [hph, hst, ne_eq, not_true_eq_false, ↓reduceIte]
+  cases hloc : a.isLocal with
+  | false => simp [beginPre, hs]
+  | true =>
+    cases hw : a.wantSup with
+    | none => simp [beginPre, hs]
+    | some p =>
+      have : supOk = true := hl hloc (by simp [hw])
+      simp [beginPre, hs, this, doLink]
+
 /-! ### E-SRC obligations -/
 
 /-- The thread-local runtime (`thread_local/inner.rs`) runs the same loop: its `processing_loop`,
@@ -109,11 +236,28 @@ example : Life.C01.ok [.enter .preStart .none, .exit .preStart .ok, .enter .post
     .exit .postStart .ok, .stopRet false .none true, .enter .handle (.msg 1), .exit .handle (.panic 3),
     .enter .postStop .none] = false := by decide
 
+-- the holes the round-4 audit found (all accepted before): a callback after the task ended, after an
+-- abort, after a tree kill
+example : Life.C01.ok [.enter .preStart .none, .exit .preStart .ok, .spawnRet .ok, .enter .postStart .none,
+    .exit .postStart .ok, .stopRet false .none true, .aborted, .join .cancelled, .enter .postStop .none] = false := by decide
+example : Life.C01.ok [.enter .preStart .none, .exit .preStart .ok, .spawnRet .ok, .enter .postStart .none,
+    .exit .postStart .ok, .aborted, .join .cancelled, .enter .handle (.msg 1)] = false := by decide
+example : Life.C01.ok [.enter .preStart .none, .exit .preStart .ok, .spawnRet .ok, .enter .postStart .none,
+    .exit .postStart .ok, .stopRet false .none true, .treeKill, .enter .postStop .none] = false := by decide
+example : Life.C01.ok [.enter .preStart .none, .dropped, .cancelled .preStart, .enter .preStart .none] = false := by decide
+
 end C01
 
 #print axioms C01.lifecycle
 #print axioms C01.lifecycle_world
 #print axioms C01.invariant
 #print axioms C01.no_overlap
+#print axioms C01.enter_only_when_closed
+#print axioms C01.post_stop_only_graceful
+#print axioms C01.start_callbacks_exactly_once
+#print axioms C01.nothing_after_task_end
+#print axioms C01.spawn_enters_pre_start
+#print axioms C01.ready_poll_enters_post_start
+#print axioms C01.instant_first_poll_enters_pre_start
 #print axioms C01.src_thread_local_twins
 #print axioms C01.src_status
